@@ -137,17 +137,6 @@ def Store.storeOne (s : Store) (box : Bytes) (l : Link) (rank : Nat) (new : List
     | none => setFlags s
   else setFlags s
 
-/-- STORE: every rank is resolved against the mailbox as it is at that moment (`LIMIT 1 OFFSET rank-1`) -/
-def Store.storeSeq (s : Store) (box : Bytes) (new : List Bytes) (mode : Mode) : List Nat → Store × List Note
-  | [] => (s, [])
-  | r :: rs =>
-    match (s.find box).bind (fun b => b.links[r - 1]?) with
-    | none => s.storeSeq box new mode rs
-    | some l =>
-      let (s1, n1) := s.storeOne box l r new mode
-      let (s2, n2) := s1.storeSeq box new mode rs
-      (s2, n1 ++ n2)
-
 def rankOf (links : List Link) (uid : Nat) : Nat := (links.filter (fun l => l.uid ≤ uid)).length
 
 def Store.storeUid (s : Store) (box : Bytes) (new : List Bytes) (mode : Mode) : List Nat → Store × List Note
@@ -159,6 +148,13 @@ def Store.storeUid (s : Store) (box : Bytes) (new : List Bytes) (mode : Mode) : 
       let (s1, n1) := s.storeOne box l r new mode
       let (s2, n2) := s1.storeUid box new mode us
       (s2, n1 ++ n2)
+
+/-- STORE: the sequence numbers are resolved to messages before anything is changed (a Junk / NonJunk move renumbers what is
+behind it); each addressed message is then handled like a UID STORE of it, its notice carrying its number at that moment -/
+def Store.storeSeq (s : Store) (box : Bytes) (new : List Bytes) (mode : Mode) (ranks : List Nat) : Store × List Note :=
+  match s.find box with
+  | none => (s, [])
+  | some b => s.storeUid box new mode (ranks.filterMap (fun r => (b.links[r - 1]?).map (·.uid)))
 
 /-! ### EXPUNGE, UID EXPUNGE, CLOSE -/
 /-- notices of an expunge: original rank minus the number already announced -/
